@@ -27,7 +27,7 @@ from vlib.util import reldiff, maxabs
 from vlib import wbsys
 
 PROPERTY_ID = "C22"
-RULE = ("reciprocal lattice of a lattice from 11 families (+rotation; cell edges generic or, in 1/4 of the cases, "
+RULE = ("reciprocal lattice of a lattice from 11 families (+rotation; cell edges generic or, in 1/3 of the cases, "
         "commensurate values 0.75..3 that create accidental shell degeneracies), Monkhorst-Pack mesh in [1..6]^3 with <= 48 points, "
         "k-points listed in a drawn permutation; non-trivial = at least two shells chosen or a non-orthogonal lattice; "
         "distinctness by the full case")
@@ -49,9 +49,9 @@ SAME = 1e-9
 @st.composite
 def case_st(draw):
     lat = draw(wbsys.lattice_st())
-    if draw(st.integers(0, 3)) == 0:  # commensurate cell edges: accidental degeneracies between shells of different directions
+    if draw(st.integers(0, 2)) == 0:  # commensurate cell edges: accidental degeneracies between shells of different directions
         for key in ("a", "b", "c"):
-            lat[key] = draw(st.sampled_from([1.0, 3.0, 2.0, 1.5, 2.5, 0.75]))
+            lat[key] = draw(st.sampled_from([1.0, 3.0, 0.75, 2.0, 3.0, 1.5, 1.0, 2.5]))
         lat["commensurate"] = True
     shape = draw(st.sampled_from(["uniform", "any", "any"]))
     if shape == "uniform":
@@ -230,4 +230,4 @@ def check(case):
     return ok(nshell >= 2 or nonorth, *labels)
 
 
-SUBS = [Sub("bk", case_st(), check, quick=500, thorough=12000, budget_quick=70, budget_thorough=500)]
+SUBS = [Sub("bk", case_st(), check, quick=640, thorough=12000, budget_quick=70, budget_thorough=500)]
